@@ -9,7 +9,10 @@ bound; /decoder-names and /deformation-names for every code; /decode for every
 offered decoder x 4 error models x noise deformation x code deformation x the
 syndromes of all weight <= 1 errors on the smallest menu size of the family;
 /new-errors with numpy.random.default_rng answering the same seeded stream on
-both sides.
+both sides, including the probability extremes p = 0 (identity) and p = 1 (every
+qubit hit); /decode also at the slider minimum p = 0 and the smallest step 0.01.
+Polygon / triangle stabilizers are additionally checked geometrically: no drawn
+vertex may leave the frame spanned by all element locations of the answer.
 Oracle: reference code in this file (drawability rules read off
 gui/js/shapes.js and topologicalCode.js, location transforms read off the
 per-class representation overrides) and the library objects built
@@ -48,7 +51,8 @@ RULE = ('one sub-case = one HTTP request a menu combination produces. /code-data
         'deformation, noise deformation, error model, offered decoder, syndrome of a weight <= 1 Pauli error) on '
         'the smallest family menu size; non-trivial when the syndrome is non-zero and the library returns a '
         'correction. /new-errors: every (code, two smallest menu sizes, code deformation, noise deformation, error '
-        'model, p, seed); non-trivial when the generated error is not the identity. Distinct = distinct request '
+        'model, p incl. the extremes 0 and 1, seed); non-trivial when the generated error is not the identity. '
+        '/decode is repeated at p = 0 and p = 0.01 for the undeformed code and noise. Distinct = distinct request '
         'body (measured by digest).')
 ASSUMPTIONS = [
     'size family per class as fixed in DESIGN.md §3 (Color666PlanarCode ignores L_y, so its coprime menu size is '
@@ -56,14 +60,27 @@ ASSUMPTIONS = [
     'a shape is drawable iff gui/js/shapes.js finds every parameter it reads for that object',
     'CSS-only decoders refusing a deformed code object with ValueError is by design (counted as library_refuses)',
     'MBP is requested with max_bp_iter=3 (pure-Python decoder), BP-OSD with the menu default 20',
+    'p is sent as the browser sends it (JSON 0 / 1 are integers); the library object is built with the SAME value, '
+    'so a decoder that cannot be built at integer p = 0 (BP-OSD, XCube Matching: TypeError in ldpc/pymatching '
+    'setup, measured on /repo e8dca0f) counts as "both refuse", and for those decoders 0.01 (the slider step) is '
+    'requested as well; '
+    'p = 1 lies beyond the slider maximum 0.5 and is requested only from /new-errors, where the answer is fixed '
+    'a priori (every qubit carries a Pauli)',
+    'geometry: every vertex of a polygon/triangle stabilizer, placed as gui/js/shapes.js places it (rotation by '
+    'angle, orientation by normal, translation by location), lies inside the axis-aligned frame spanned by all '
+    'qubit and stabilizer locations of the same answer, up to 1e-9. Measured on /repo e8dca0f over the whole '
+    'thorough box (417 code x size x deformation, both pictures): overshoot is exactly 0 for Color488Code, '
+    'Color666PlanarCode, RhombicPlanarCode, HollowRhombicCode; the two periodic lattices whose seam polygons are '
+    'drawn whole get their measured allowance (= the half-extent of the polygon): Color666ToricCode 2.0, '
+    'RhombicToricCode 1.0',
 ]
 BOUNDS = {
     'quick': {'max_n': 150, 'menu_L': [1, 12], 'decode_weight': 1, 'mbp_max_n': 12, 'mbp_iter': 3,
-              'bposd_iter': 20, 'p_decode': 0.1, 'new_errors_p': [0.1, 0.5], 'new_errors_seeds': [1, 2],
-              'new_errors_sizes': 2},
+              'bposd_iter': 20, 'p_decode': 0.1, 'p_decode_extremes': [0, 0.01],
+              'new_errors_p': [0, 0.1, 0.5, 1], 'new_errors_seeds': [1, 2], 'new_errors_sizes': 2},
     'thorough': {'max_n': 600, 'menu_L': [1, 12], 'decode_weight': 1, 'mbp_max_n': 100, 'mbp_iter': 3,
-                 'bposd_iter': 20, 'p_decode': 0.1, 'new_errors_p': [0.1, 0.3, 0.5],
-                 'new_errors_seeds': [1, 2, 3], 'new_errors_sizes': 2},
+                 'bposd_iter': 20, 'p_decode': 0.1, 'p_decode_extremes': [0, 0.01],
+                 'new_errors_p': [0, 0.1, 0.3, 0.5, 1], 'new_errors_seeds': [1, 2, 3], 'new_errors_sizes': 2},
 }
 BUDGET_S = {'quick': 900, 'thorough': 7200}      # ~550 / ~3700 core-seconds of work: ~40 s / ~4 min on 16 idle cores
 
@@ -71,6 +88,9 @@ ERROR_MODELS = ['Pure X', 'Pure Y', 'Pure Z', 'Depolarizing']        # main.js:3
 DIRECTIONS = {'Pure X': (1, 0, 0), 'Pure Y': (0, 1, 0), 'Pure Z': (0, 0, 1),
               'Depolarizing': (1 / 3, 1 / 3, 1 / 3)}                 # what the labels mean
 MENU_ALPHA, MENU_BETA = 0.4, 0                                        # main.js:17-18 defaults
+# decoders whose library constructor refuses the integer 0 the browser sends for p = 0 (measured, see
+# ASSUMPTIONS): p = 0 is still requested (outcome "both refuse"), and the slider step 0.01 in addition
+REFUSE_AT_P0 = ('BP-OSD', 'XCube Matching')
 
 # ---- drawability rules read off gui/js/shapes.js -------------------------------------------
 NUM, VEC3, VERTS, AXIS = 'num', 'vec3', 'verts', 'axis'
@@ -191,6 +211,63 @@ def _stab_location_ok(cn, rotated, coord, stab_type, loc):
     return False
 
 
+# ---- geometry of objects with explicit vertices (gui/js/shapes.js: triangle, polygon) -------
+GEOMETRY_ALLOWANCE = {'Color666ToricCode': 2.0, 'RhombicToricCode': 1.0}     # see ASSUMPTIONS; others 0
+
+
+def _pad3(loc):
+    return [float(t) for t in loc] + [0.0] * (3 - len(loc))
+
+
+def _drawn_vertices(entry):
+    """Absolute vertices as shapes.js computes them, or None for objects without explicit vertices."""
+    import math
+    par, loc = entry['params'], _pad3(entry['location'])
+    if entry['object'] == 'triangle':
+        rel = [tuple(float(t) for t in v) for v in par['vertices']]
+    elif entry['object'] == 'polygon':
+        nx, ny, nz = (float(t) for t in par['normal'])
+        nxz, nxy = math.hypot(nx, nz), math.hypot(nx, ny)
+        theta = math.pi / 2 if nxz == 0 else math.acos(nz / nxz)
+        theta = theta if nx >= 0 else -theta
+        alpha = 0.0 if nxy == 0 else math.acos(nx / nxy)
+        alpha = alpha if ny > 0 else -alpha
+        rel = []
+        for v in par['vertices']:
+            x, y, z = float(v[0]), float(v[1]), 0.0
+            c, s = math.cos(par['angle']), math.sin(par['angle'])
+            x, y = c * x - s * y, s * x + c * y                 # rotateZ(angle)
+            c, s = math.cos(theta), math.sin(theta)
+            x, z = c * x + s * z, -s * x + c * z                # rotateY(theta)
+            c, s = math.cos(alpha), math.sin(alpha)
+            x, y = c * x - s * y, s * x + c * y                 # rotateZ(alpha)
+            rel.append((x, y, z))
+    else:
+        return None
+    return [tuple(loc[a] + v[a] for a in range(3)) for v in rel]
+
+
+def _geometry_problem(cn, Q, S):
+    """None, or (index, info, overshoot) of the first stabilizer drawn beyond the frame of the answer."""
+    pts = [_pad3(e['location']) for e in Q] + [_pad3(e['location']) for e in S]
+    lo = [min(p[a] for p in pts) for a in range(3)]
+    hi = [max(p[a] for p in pts) for a in range(3)]
+    allow = GEOMETRY_ALLOWANCE.get(cn, 0.0) + 1e-9
+    n_polys = 0
+    first = None
+    for i, e in enumerate(S):
+        vs = _drawn_vertices(e)
+        if vs is None:
+            continue
+        n_polys += 1
+        over = max(max(max(v[a] - hi[a], lo[a] - v[a]) for v in vs) for a in range(3))
+        if over > allow and first is None:
+            first = (i, 'vertices %s of the %s at %r leave the frame %s..%s by %.4f'
+                     % ([[round(t, 4) for t in v] for v in vs], e['object'], e['location'],
+                        [round(t, 4) for t in lo], [round(t, 4) for t in hi], over), over)
+    return first, n_polys
+
+
 # ---- menu enumeration ----------------------------------------------------------------------
 
 def _menu_in_family(cn, size):
@@ -294,6 +371,10 @@ def cases(tier, seed):
                                            'noise_deformation': nd, 'error_model': em, 'decoder': dn,
                                            'lo': lo, 'hi': min(n, lo + chunk), 'p': b['p_decode'],
                                            'max_bp_iter': b['mbp_iter'] if mbp else b['bposd_iter']}))
+                            if d == 'None' and nd == 'None':        # slider minimum and smallest step
+                                for pe in b['p_decode_extremes']:
+                                    if pe == 0 or dn in REFUSE_AT_P0:
+                                        de.append((n, dict(de[-1][1], p=pe)))
     for lst in (cd, ne, de):
         lst.sort(key=lambda t: t[0])
         out += [c for _, c in lst]
@@ -514,6 +595,12 @@ def _eval_code_data(case):
                 if p is not None:
                     bad = bad or ('stabilizer', i, p)
                     _bump(res, 'bad_entries')
+            if bad is None:
+                geo, n_polys = _geometry_problem(cn, Q, S)
+                _bump(res, 'polygons_checked', n_polys)
+                if geo is not None:
+                    bad = ('stabilizer', geo[0], ('geometry', geo[1]))
+                    _bump(res, 'bad_entries')
             if bad:
                 what, i, (rule, info) = bad
                 emit('entry-' + rule, {'first': '%s %d' % (what, i), 'info': info,
@@ -568,7 +655,8 @@ def _eval_new_errors(case):
     for nd in case['noise_deformations']:
         for em in ERROR_MODELS:
             for p in case['p']:
-                for seed in case['seeds']:
+                # at the extremes the answer does not depend on the stream: one seed
+                for seed in (case['seeds'] if 0 < p < 1 else case['seeds'][:1]):
                     body = dict(_req_base(case), p=p, noise_deformation_name=nd, error_model=em)
                     with _seeded_default_rng(seed):
                         st, got = _post(cl, '/new-errors', body)
@@ -581,13 +669,23 @@ def _eval_new_errors(case):
                     res['evals'] += 1
                     _bump(res, 'new_errors_requests')
                     key = None
+                    nq = lib.n
                     if st != 200:
                         key = _base_key(case, '/new-errors', 'http-status', noise_deformation=nd, error_model=em,
-                                        status=st, exc=type(exc).__name__ if exc is not None else None,
+                                        p=p, status=st, exc=type(exc).__name__ if exc is not None else None,
                                         where=_where(exc) if exc is not None else None)
+                    elif p == 0 and (not isinstance(got, list) or len(got) != 2 * nq or any(got)):
+                        # a priori: probability 0 leaves every qubit alone
+                        key = _base_key(case, '/new-errors', 'new-errors-at-p0-not-identity',
+                                        noise_deformation=nd, error_model=em, p=p)
+                    elif p == 1 and (not isinstance(got, list) or len(got) != 2 * nq
+                                     or not all(got[i] or got[nq + i] for i in range(nq))):
+                        # a priori: probability 1 puts a Pauli on every qubit
+                        key = _base_key(case, '/new-errors', 'new-errors-at-p1-not-full-weight',
+                                        noise_deformation=nd, error_model=em, p=p)
                     elif got != ref:
                         key = _base_key(case, '/new-errors', 'new-errors-mismatch', noise_deformation=nd,
-                                        error_model=em)
+                                        error_model=em, p=p)
                     if key is not None:
                         n_viol += 1
                         if len(V) < 5 and key not in [v['key'] for v in V]:
@@ -600,6 +698,8 @@ def _eval_new_errors(case):
                         raise AssertionError('library error has wrong length')      # harness-level sanity
                     if any(ref):
                         seen.add(_digest([body, seed]))
+                    if p in (0, 1):
+                        _bump(res, 'new_errors_extreme_p_requests')
                     res['outcomes'].append('%s|%s|%d' % (case['cls'], em, sum(ref)))
     res['nontrivial'] = len(seen)
     res['outcomes'] = sorted(set(res['outcomes']))[:50]
@@ -669,26 +769,33 @@ def _eval_decode(case):
             lib_exc = x
         res['evals'] += 1
         _bump(res, 'decode_requests')
+        if case['p'] != 0.1:
+            _bump(res, 'decode_extreme_p_requests')
         key = None
         if lib_exc is not None and st != 200:
             same = exc is not None and type(exc) is type(lib_exc)
             if same:
                 by_design = isinstance(lib_exc, ValueError) and case['deformation'] != 'None'
                 _bump(res, 'library_refuses' if by_design else 'library_raises_other')
+                if case['p'] == 0:
+                    _bump(res, 'both_refuse_at_p0')
                 res['outcomes'].append('%s|%s|refuse:%s' % (case['cls'], dn, type(lib_exc).__name__))
                 continue
-            key = _base_key(case, '/decode', 'decode-refusal-differs', decoder=dn, error_model=em,
+            key = _base_key(case, '/decode', 'decode-refusal-differs', decoder=dn, error_model=em, p=case['p'],
                             noise_deformation=nd, status=st, exc=type(exc).__name__ if exc else None,
                             library_exc=type(lib_exc).__name__)
         elif lib_exc is not None:
             key = _base_key(case, '/decode', 'decode-answers-where-library-refuses', decoder=dn, error_model=em,
+                            p=case['p'],
                             noise_deformation=nd, library_exc=type(lib_exc).__name__)
         elif st != 200:
             key = _base_key(case, '/decode', 'http-status', decoder=dn, error_model=em, noise_deformation=nd,
+                            p=case['p'],
                             status=st, exc=type(exc).__name__ if exc is not None else None,
                             where=_where(exc) if exc is not None else None)
         elif got != ref:
-            key = _base_key(case, '/decode', 'decode-mismatch', decoder=dn, error_model=em, noise_deformation=nd)
+            key = _base_key(case, '/decode', 'decode-mismatch', decoder=dn, error_model=em, noise_deformation=nd,
+                            p=case['p'])
         if key is not None:
             n_viol += 1
             if len(V) < 5 and key not in [v['key'] for v in V]:
